@@ -380,8 +380,12 @@ Definition remap (mp : list (Z * Z)) : act := fun h o =>
          (set_changed
            (set_adj (set_atoms o (map (fun na => (mg mp (fst na), snd na)) (o_atoms o)))
                     (map (fun nr => (mg mp (fst nr), map (fun mr => (mg mp (fst mr), snd mr)) (snd nr))) (o_adj o)))
-           (* MoleculeContainer.remap: self._changed = {mapping.get(n, n) for n in self._changed} *)
-           (match o_changed o with None => None | Some l => Some (fold_right sadd [] (map (mg mp) l)) end)).
+           (* MoleculeContainer.remap: inside a transaction every atom is marked (atoms can no longer be compared with the backup by
+              number); otherwise self._changed = {mapping.get(n, n) for n in self._changed} *)
+           (match o_backup o with
+            | Some _ => Some (fold_right sadd [] (map (mg mp) (keys (o_atoms o))))
+            | None => match o_changed o with None => None | Some l => Some (fold_right sadd [] (map (mg mp) l)) end
+            end)).
 
 (* ---- substructure(atoms) *)
 (* bond.copy(stereo=True): no _in_ring *)
@@ -448,21 +452,26 @@ Definition patch (n m bo dch : Z) : act := fun h o =>
 
 (* ---- __enter__ / __exit__ *)
 Definition enter : act := fun h o =>
+  match o_backup o with
+  | Some _ => raise OtherError h o          (* RuntimeError('nested transactions are not supported') *)
+  | None =>
   match copy_mol true true h o with
   | Err e => raise e h o
   | Ok (h1, b) => ok h1 (set_backup o (Some (mkBk (o_atoms b) (o_adj b) (o_cache b) (o_changed b) (o_name b) (o_meta b))))
+  end
   end.
 Definition exit_exn : act := fun h o =>
   match o_backup o with
   | Some b => ok h (mkM (bk_atoms b) (bk_adj b) (bk_cache b) (bk_changed b) None (bk_name b) (bk_meta b))
   | None => raise AttributeError h o
   end.
-(* atoms present in the backup whose charge or radical state differs from it (attribute setters don't report changes) *)
+(* atoms that are not in the backup under their number, or whose charge or radical state differs from it (attribute setters
+   don't report changes) *)
 Definition txn_diffs (o : mobj) (b : bk) : list Z :=
   flat_map (fun na => match zget (bk_atoms b) (fst na) with
                       | Some a0 => if (c_chg (a_core (snd na)) =? c_chg (a_core a0)) && Bool.eqb (c_rad (a_core (snd na))) (c_rad (a_core a0))
                                    then [] else [fst na]
-                      | None => []
+                      | None => [fst na]
                       end) (o_atoms o).
 Definition note_setters : act := fun h o =>      (* if self._changed is not None: self._changed.update(atoms edited through setters) *)
   match o_changed o with
